@@ -28,6 +28,14 @@ def run(sh):
     n = 400 if sh.tier == 'quick' else 60000
     engine_line.run_profile(sh, 'C17', 'batching', n, MONITORS, nontrivial)
 
+    # generators that re-use one scratch list for every Batch, in front of a PartBatcher that unpacks it
+    from .. import core, modelgen
+    pol = ['prng', 'fifo', 'lifo', 'const']
+    for i in sh.share(max(16, n // 10)):
+        seed = core.stable_int(sh.seed, 'C17', 'scratch', i) % (1 << 40)
+        engine_line.run_spec(sh, 'C17', modelgen.generate_scratch_batches(seed, pol[i % 4]), MONITORS, nontrivial,
+                             prefix='scratch_')
+
 
 def replay(sh, v):
     engine_line.replay_case(sh, 'C17', v['case'], MONITORS)
